@@ -181,3 +181,22 @@ Proof.
     with (LocT_is_current (e_set e) (e_ls e) (pv_tst (e_pv e)) (N mod 2 ^ 32) life_s).
   rewrite src_is_current. apply keep_real; try reflexivity; assumption.
 Qed.
+
+(* ---- Basic Header of beacons / single-hop broadcast and of the MIB defaults ------------------------------------------------ *)
+Lemma src_bh_default_lifetime s pv hl rhl :
+  BasicHeader_initialize_with_mib_and_rhl s pv hl rhl = (1, 1, 0, req_lt s None, rhl) /\
+  BasicHeader_initialize_with_mib s pv hl rhl = (pv, 1, 0, req_lt s None, hl).
+Proof.
+  unfold BasicHeader_initialize_with_mib_and_rhl, BasicHeader_initialize_with_mib, LT_set_value_in_seconds, req_lt.
+  rewrite src_lt_encode. split; reflexivity.
+Qed.
+
+(* the lifetime a beacon / the default header carries never exceeds the MIB default and is the largest representable one *)
+Lemma src_bh_default_lifetime_le s pv hl rhl : 0 <= s ->
+  let '(_, _, _, (m, b), _) := BasicHeader_initialize_with_mib_and_rhl s pv hl rhl in
+  LT_get_value_in_millis m b <= s * 1000.
+Proof.
+  intros Hs. destruct (src_bh_default_lifetime s pv hl rhl) as [-> _]. unfold req_lt.
+  pose proof (lt_encode_fields (s * 1000)) as Hf. pose proof (lt_le (s * 1000) ltac:(lia)) as Hle.
+  unfold lt_enc_value in Hle. destruct (lt_encode (s * 1000)) as [m b]. rewrite src_lt_value by lia. exact Hle.
+Qed.
